@@ -35,8 +35,7 @@ Built == pc = "done"
 AllE == {ec} \cup {c[x][y][z] : x \in 1..2, y \in 1..2, z \in 1..2}
 ParalCodeEqualsClosed == (Built /\ admissible /\ welldef) => w = closed
 ParalUnitRange == (Built /\ der = 0 /\ welldef) => InUnitRange(closed)
-ParalOutside == (Built /\ welldef) => /\ ef < Min(AllE) => closed = RZero
-                           /\ ef > Max(AllE) => closed = (IF der = 0 THEN ROne ELSE RZero)
+ParalOutside == (Built /\ welldef) => ((ef < Min(AllE) => closed = RZero) /\ (ef > Max(AllE) => closed = (IF der = 0 THEN ROne ELSE RZero)))
 ParalMonotone == (Built /\ der = 0 /\ welldef /\ (ef + 1) \in EFS /\ Wd(c, ec, ef + 1, 0)) => RLe(closed, ClosedW(c, ec, ef + 1, 0))
 (* on cubes with planar faces the choice of the face diagonals does not matter; in general the code's value lies between
    the face-wise bounds *)
@@ -48,7 +47,7 @@ PlanarDiagonalFree == (Built /\ planar /\ welldef /\ WdOther(c, ec, ef, der)) =>
 Label == [x \in 1..2 |-> [y \in 1..2 |-> [z \in 1..2 |-> 4 * (x - 1) + 2 * (y - 1) + z]]]
 TL == ParalTetrahedra(0, Label)
 SetOf4(q) == {q[i] : i \in 1..4}
-FaceSplit ==
+FaceSplit == (Built /\ der = 0 /\ ef = Min(EFS) /\ ec = Min(CENTERS)) =>         \* input independent: evaluated on few states
    /\ \A f \in 1..6 : LET A == SetOf4(TL[2 * f - 1])  B == SetOf4(TL[2 * f]) IN
          /\ Cardinality(A) = 4 /\ Cardinality(B) = 4 /\ 0 \in A /\ 0 \in B
          /\ Cardinality(A \cup B) = 5 /\ Cardinality(A \cap B) = 3
